@@ -4,6 +4,6 @@
 set -u
 id="$1"; v="$2"; crate="$3"; demo="$4"; shift 4
 extra=(); while [ $# -gt 0 ] && [ "$1" != "--" ]; do extra+=("$1"); shift; done; shift
-n="seed-$id$(echo $v | tr 'AB' 'ab')"
-/verif/tools/seedtest.sh "$n" "/tmp/seed-$id/out/$v/patch.diff" "$@" 2>&1 | grep -E "passed=|^==|^VIOL|held|INCONC|NOT APPLY" | cut -c1-210
-/verif/tools/seeddemo.sh "$n" "$crate" "/tmp/seed-$id/out/$v/demo/$demo" "${extra[@]}" 2>&1 | grep -E "WITH|CLEAN|test result"
+P="${SEED_PREFIX:-seed}"; n="$P-$id$(echo $v | tr 'AB' 'ab')"
+/verif/tools/seedtest.sh "$n" "/tmp/$P-$id/out/$v/patch.diff" "$@" 2>&1 | grep -E "passed=|^==|^VIOL|held|INCONC|NOT APPLY" | cut -c1-210
+/verif/tools/seeddemo.sh "$n" "$crate" "/tmp/$P-$id/out/$v/demo/$demo" "${extra[@]}" 2>&1 | grep -E "WITH|CLEAN|test result"
